@@ -13,7 +13,9 @@ PID = "C16"
 LEVEL = "exploration"
 RULE = ("two real dilated wormholes with dilate(ping_interval=x), x in 0.5..60 s; the selected link gets a "
         "controlled round-trip latency d<x per ping (many values incl. just below x), or goes silent "
-        "(blackholed, nobody notified) at a random instant, or slow-then-silent; random link cuts and "
+        "(blackholed, nobody notified) at a random instant, or slow-then-silent; in a share of the responsive "
+        "and silent cases the Leader's application streams 3-40 MB through a subchannel the whole time (L2 "
+        "transport full, Outbound paused when pings are due); random link cuts and "
         "close() so that monitoring must stop and resume on the next connection. Events are taken at the "
         "Manager's send_ping/handle_pong/_signal_reconnect/connector_connection_made/lost boundary with "
         "virtual timestamps. Non-trivial = at least 3 answered pings (responsive) or a blackhole that "
@@ -21,6 +23,39 @@ RULE = ("two real dilated wormholes with dilate(ping_interval=x), x in 0.5..60 s
 ASSUMPTIONS = ["Noise stand-in", "virtual time: all deadlines are decided on the simulated clock"]
 FLOORS = {"quick": {"pongs": 3000, "silent_cases_dropped": 60, "responsive_intervals": 3000},
           "thorough": {"pongs": 100000, "silent_cases_dropped": 2500, "responsive_intervals": 110000}}
+
+class Bulk:
+    """push producer that keeps a subchannel's sender saturated (writes whenever it is allowed to)"""
+
+    def __init__(self, transport, total, chunk=40000):
+        self.t, self.left, self.chunk, self.paused, self.written = transport, total, chunk, False, 0
+        transport.registerProducer(self, True)
+        self.resumeProducing()
+
+    def pauseProducing(self):
+        self.paused = True
+
+    def stopProducing(self):
+        self.paused = True
+        self.left = 0
+
+    def resumeProducing(self):
+        self.paused = False
+        while not self.paused and self.left > 0:
+            n = min(self.chunk, self.left)
+            self.left -= n
+            self.written += n
+            try:
+                self.t.write(b"b" * n)
+            except Exception:
+                self.left = 0
+                return
+        if self.left <= 0:
+            try:
+                self.t.unregisterProducer()
+            except Exception:
+                pass
+
 
 _events = []      # (time, manager, what, extra)
 _world = [None]
@@ -50,8 +85,9 @@ def _install():
 
 def cases(tier, seed, prep=None):
     n = 300 if tier == "quick" else 9000
-    kinds = ["responsive", "responsive", "silent", "silent", "slow-then-silent", "cut-then-responsive", "close"]
-    out = [{"seed": seed * 1000003 + 1600000 + i, "kind": kinds[i % len(kinds)]} for i in range(n)]
+    kinds = ["responsive", "responsive", "silent", "silent", "slow-then-silent", "cut-then-responsive", "close",
+             "responsive", "silent"]
+    out = [{"seed": seed * 1000003 + 1600000 + i, "kind": kinds[i % len(kinds)], "bulk": i % len(kinds) >= 7} for i in range(n)]
     for i in range(24 if tier == "quick" else 600):
         out.append({"seed": seed * 1000003 + 1650000 + i, "kind": "cut-then-responsive", "nflaps": [5, 8, 12, 20][i % 4]})
     return out
@@ -85,23 +121,47 @@ def run_case(spec):
         gate["until"] = r.seconds() + d
         r.callLater(d, lambda: None)
     seen_pings = [0]
+    paused_pings = [0]
 
     def hook():
         n = len([1 for e in _events if e[2] == "ping"])
         if n > seen_pings[0]:
             seen_pings[0] = n
+            m = _events[-1][1]
+            if getattr(getattr(m, "_outbound", None), "_paused", False):
+                paused_pings[0] += 1
             on_ping_gate()
+        if quota["on"]:
+            tot = sum(e.rx_total for l in dp.l2_links() for e in l.ends)
+            if tot != quota["seen"]:
+                quota["seen"] = tot
+                quota["n"] -= 1
     sch.hook = hook
 
+    quota = {"on": False, "n": 0, "seen": 0, "dt": x / 20.0}
+
+    def grant():
+        quota["n"] = 1
+        if quota["on"]:
+            r.callLater(quota["dt"], grant)
+
     def filt(a):
-        if gate["link"] is not None and r.seconds() < gate["until"] and a[0] in ("data", "flush", "fin"):
+        if a[0] in ("data", "flush", "fin"):
             t = a[2][2]
-            if t.link is gate["link"]:
+            if gate["link"] is not None and r.seconds() < gate["until"] and t.link is gate["link"]:
+                return False
+            # bandwidth limit (bulk cases): one delivery on an L2 link per dt of virtual time
+            if quota["on"] and a[0] == "data" and quota["n"] <= 0 and t.link in dp.l2_links():
                 return False
         return True
     sch.filter = filt
     if rng.random() < 0.5:
         lat["mode"] = "random"
+    if spec.get("bulk"):
+        # queueing behind the streamed data adds up to ~3 delivery slots (0.15 x) to every round trip, so
+        # the injected latency stays well below the interval: the peer remains responsive by construction
+        lat["mode"] = "fixed"
+        lat["d"] = rng.choice([0.0, 0.1, 0.4]) * x
     sch.run(3000, until=dp.both_connected)
     if not dp.both_connected():
         world.finish()
@@ -110,6 +170,20 @@ def run_case(spec):
     lead = dp.leader()
     fol = "B" if lead == "A" else "A"
     lm, fm = dp.manager(lead), dp.manager(fol)
+    bulk = None
+    if spec.get("bulk"):
+        r.blackhole_sndbuf = 2 ** 18     # a silent peer acknowledges nothing: the send buffer fills and stays full
+        # the Leader's application streams data the whole time, so its L2 transport is usually full and
+        # Outbound paused when a ping is due; pings and pongs queue behind that data
+        fl = RecFactory(dp, "%s.accept2" % fol)
+        dp.dw[fol].listener_for("bulk").listen(fl)
+        got = []
+        dp.dw[lead].connector_for("bulk").connect(RecFactory(dp, "%s.open" % lead)).addCallback(got.append)
+        sch.run(400, until=lambda: bool(got))
+        if got:
+            quota["on"] = True
+            grant()
+            bulk = Bulk(got[0].transport, rng.choice([3, 10, 40]) * 1000000)
     t_conn = r.seconds()
     horizon = t_conn + x * rng.choice([8, 20, 60])
     t0 = None
@@ -218,7 +292,20 @@ def run_case(spec):
                              "witness": wit()})
             elif "made" not in [w for (t, w, e) in ev_l[[i for i, (t, w, e) in enumerate(ev_l) if w == "drop" and t == after[0]][0]:]]:
                 viol.append({"key": "C16/no-new-connection-after-drop", "msg": "", "witness": wit()})
-    if kind in ("responsive", "cut-then-responsive", "close"):
+    # measured round trips (ping id -> pong), as a check of the harness' own premise
+    sent_at = {}
+    rtts = []
+    for (t, w, e) in ev_l:
+        if w == "ping":
+            sent_at[e] = t
+        elif w == "pong" and e in sent_at:
+            rtts.append(t - sent_at[e])
+    slow_rtt = [d_ for d_ in rtts if d_ >= x - 1e-9]
+    if kind in ("responsive", "cut-then-responsive", "close") and slow_rtt:
+        return_inconclusive = "harness premise broken: a pong took %.3f s >= x=%s" % (max(slow_rtt), x)
+    else:
+        return_inconclusive = None
+    if kind in ("responsive", "cut-then-responsive", "close") and not return_inconclusive:
         # every ping was answered within one interval, so the monitor must never drop
         if drops:
             viol.append({"key": "C16/responsive-peer-dropped", "msg": "leader dropped the connection at t=%s although every pong arrived within %.3f s < x=%s" % (
@@ -231,6 +318,9 @@ def run_case(spec):
                 viol.append({"key": "C16/monitoring-does-not-resume", "msg": "no ping on the replacement connection made at t=%.3f" % mades[-1], "witness": wit()})
         if kind == "responsive" and len(pongs) < 2 and (t_end - t_conn) > 4 * x:
             viol.append({"key": "C16/no-pings-on-responsive-link", "msg": "%d pongs in %.1f intervals" % (len(pongs), (t_end - t_conn) / x), "witness": wit()})
+    quota["on"] = False
+    if bulk is not None:
+        bulk.stopProducing()
     if kind != "close":
         dp.a.close()
         dp.b.close()
@@ -245,8 +335,12 @@ def run_case(spec):
         nontrivial = [kind, x, round(t0 - t_conn, 3), lat["mode"]]
     elif len(pongs) >= 3:
         nontrivial = [kind, x, lat["mode"], lat_log[:5], len(pongs)]
+    if return_inconclusive:
+        return {"inconclusive": return_inconclusive, "violations": []}
     return {"violations": viol, "nontrivial": nontrivial,
             "counters": {"pongs": len(pongs), "pings": len([1 for (t, w, e) in ev_l if w == "ping"]), "silent_cases_dropped": silent_dropped,
-                         "responsive_intervals": responsive_intervals, "drops": len(drops), "cuts": cuts, "kind_" + kind: 1},
+                         "responsive_intervals": responsive_intervals, "drops": len(drops), "cuts": cuts, "kind_" + kind: 1,
+                         "bulk_cases": int(bulk is not None), "bulk_bytes_written": bulk.written if bulk else 0,
+                         "pings_sent_while_outbound_paused": paused_pings[0]},
             "sample": {"spec": spec, "x": x, "leader": lead, "pongs": len(pongs), "drops": [round(t, 3) for t in drops], "t0": t0,
                        "latencies": lat_log[:6], "leader_events": [(round(t, 2), w) for (t, w, e) in ev_l][:14]}}
